@@ -71,6 +71,9 @@ type simT struct {
 
 var theSim = &simT{}
 
+// realMS is advanced by a goroutine outside the bubble (real time, ms).
+var realMS atomic.Int64
+
 func (s *simT) init(cfg *proto.Config, out *os.File) {
 	s.out = out
 	s.detail = cfg.EventDetail
@@ -311,20 +314,29 @@ func (s *simT) snap() snapshot {
 			continue
 		}
 		st := string(state)
-		switch {
-		case st == "running" || st == "runnable" || st == "preempted" || st == "copystack" || strings.HasPrefix(st, "GC assist"):
-			sn.active++
-		case st == "syscall":
+		switch st {
+		case "chan receive", "chan send", "select", "select (no cases)", "sync.Cond.Wait", "sync.WaitGroup.Wait",
+			"IO wait", "finalizer wait", "GC worker (idle)", "GC sweep wait", "GC scavenge wait", "force gc (idle)",
+			"synctest.Run", "synctest.Wait", "chan receive (nil chan)", "chan send (nil chan)", "timer goroutine (idle)",
+			"cleanup wait":
+			// stable: needs a scheduler decision, a clock advance or an external event
+		case "sleep":
+			if bytes.Contains(line, []byte("synctest bubble")) {
+				sn.sleepers++ // only fake-clock sleepers wait for the simulator
+			}
+		case "sync.Mutex.Lock", "sync.RWMutex.RLock", "sync.RWMutex.Lock":
+			sn.lockers++
+		case "syscall":
 			// the os/signal goroutine sits in a syscall forever
 			nl := bytes.IndexByte(rest[1:], '\n')
 			if nl > 0 && bytes.Contains(rest[1:nl+1], []byte("os/signal.signal_recv")) {
 				continue
 			}
 			sn.active++
-		case st == "sleep":
-			sn.sleepers++
-		case strings.HasPrefix(st, "sync.Mutex") || strings.HasPrefix(st, "sync.RWMutex") || st == "semacquire":
-			sn.lockers++
+		default:
+			// running, runnable, preempted, copystack, semacquire (GC start/mark-done
+			// semaphores), GC assist wait, ...: will make progress by itself
+			sn.active++
 		}
 	}
 	return sn
@@ -347,10 +359,6 @@ func (s *simT) waitQuiescent() snapshot {
 			}
 		}
 		spins++
-		if spins%64 == 0 {
-			// be polite to the thread that must finish its work
-			time.Sleep(0)
-		}
 	}
 }
 
@@ -392,6 +400,7 @@ const maxAdvanceMS = 600 * 1000 // fake ms of fruitless clock advance before a w
 func (s *simT) run(done func() bool, drain bool) (wedged bool) {
 	advanced := int64(0)
 	quantum := int64(1)
+	lockWaitStart := int64(0)
 	for {
 		sn := s.waitQuiescent()
 		s.mu.Lock()
@@ -404,10 +413,18 @@ func (s *simT) run(done func() bool, drain bool) (wedged bool) {
 			}
 			// Nothing to release: let fake time pass for sleepers/timers.
 			if sn.lockers > 0 {
-				// fake time cannot advance while a goroutine waits on a mutex
-				// whose holder is itself waiting for time: genuine wedge.
+				// Fake time cannot advance while a goroutine waits on a mutex.
+				// Give the holder real time to finish (it may be waiting for an
+				// event outside the bubble); only then call it a wedge.
+				if lockWaitStart == 0 {
+					lockWaitStart = realMS.Load()
+				}
+				if realMS.Load()-lockWaitStart < 3000 {
+					continue
+				}
 				return !finished
 			}
+			lockWaitStart = 0
 			if advanced >= maxAdvanceMS {
 				return !finished
 			}
@@ -421,7 +438,7 @@ func (s *simT) run(done func() bool, drain bool) (wedged bool) {
 			}
 			continue
 		}
-		advanced, quantum = 0, 1
+		advanced, quantum, lockWaitStart = 0, 1, 0
 		sorted := make([]*parkedG, n)
 		copy(sorted, s.parked)
 		sort.SliceStable(sorted, func(i, j int) bool {
